@@ -2289,3 +2289,22 @@ def _eval_jacobi(it, n, alpha, beta, x, **kw):
     if isinstance(x, Arr):
         return map1(it, x, lambda v: f(zr(n), zr(alpha), zr(beta), zr(v)), "float")
     return f(zr(n), zr(alpha), zr(beta), zr(x))
+
+
+def _tri(lower):
+    def f(it, m, k=0):
+        m = as_arr(it, m)
+        if m.ndim != 2:
+            raise Unsupported("tril / triu of a rank-%d array" % m.ndim)
+        snap = m.snapshot()
+        kk = k
+
+        def elem(idx):
+            keep = cmp("<=", idx[1], r_add(idx[0], kk)) if lower else cmp(">=", idx[1], r_add(idx[0], kk))
+            return ite(keep, snap(idx), 0)
+        return Arr(list(m.shape), elem, m.dtype)         # a new array (numpy.tril / triu copy)
+    return f
+
+
+EXT["numpy.tril"] = _tri(True)
+EXT["numpy.triu"] = _tri(False)
